@@ -106,8 +106,8 @@ def translator_stage(ctx: Ctx):
 
 def run(ctx: Ctx):
     ctx.cov["rule"] = ("X: sequences on ONE DatabaseAPI with input tables registered BY NAME [the three analysis calls; the tables' "
-                       "contents replaced; optionally delete_tables_created_by_splink_from_db(); the calls again - without cleanup only "
-                       "count_comparisons is re-checked, the other two are a known finding]; cases: seeded tables (1-3, NULL keys), all link types; a single rule = 0-2 equi-join atoms (incl. substr keys, "
+                       "contents replaced; optionally delete_tables_created_by_splink_from_db(); the calls again, all re-checked against the "
+                       "new contents]; cases: seeded tables (1-3, NULL keys), all link types; a single rule = 0-2 equi-join atoms (incl. substr keys, "
                        "asymmetric l.a = r.b for dedupe) + optional filter atom, or an OR rule without extractable keys, salted on DuckDB; "
                        "rule lists of length 1-4 with array-exploding rules (one or two exploded arrays) on DuckDB; max_rows_limit passed "
                        "explicitly (never hit) in half of the cases; n_largest in {1,2,3,5}; 3 Coq-evaluated comparisons per case; non-trivial = the rule has a "
@@ -223,7 +223,8 @@ def run(ctx: Ctx):
                               f"{', call after the named tables were replaced on the same DatabaseAPI' if st2 else ''}): {d2[0][:300]}",
                               {"case": small, "failing_call": st2, "implementation": r2, "specification": d2[:5]},
                               {"backend": small["backend"], "link_type": small["link_type"], "kind": kind,
-                               "after_tables_replaced": bool(st2)})
+                               "after_tables_replaced": bool(st2),
+                               "has_exploding_rule": any(X.is_exploding(r) for r in small["rules"])})
     ctx.obligations += len(cases)
     ctx.discharged += len(cases) - len({c for c, _ in split_fail})
     bad_idx, errs = ctx.eval_cases("C14_x", X.HEADER, terms, "run_case", shard=60)
